@@ -46,8 +46,8 @@ def classify(t, F):
         inner = t[3]
         if inner[0] == 'fn':
             t = inner
-        elif inner[0] == 'op' and inner[1] == 'fadd' and inner[4] == ('cf', 0.5, inner[2]):
-            return ('ok', 'trunc(x+0.5)', inner[3], inner[2])
+        elif inner[0] == 'op' and inner[1] == 'fadd' and (inner[4] == ('cf', 0.5, inner[2]) or inner[3] == ('cf', 0.5, inner[2])):
+            return ('bad', "int(x + 0.5) is not round-to-nearest: the sum x + 0.5 is itself rounded, so x = 0.5 - 1ulp selects lattice point 1")
         else:
             return ('bad', "coordinate is converted to an integer by truncation, not by rounding to nearest: %s" % ir.show(t))
     if t[0] == 'fn':
@@ -80,6 +80,7 @@ def harnesses(tier):
 def run(rep, tier):
     hs = harnesses(tier)
     harness.build(hs, "c04")
+    pending = []
     for h in hs:
         N, M, F, I = h.meta["N"], h.meta["M"], h.meta["F"], h.meta["I"]
         inst = "nearest_neighbour<%s^%d over %s, M=%d>" % (F, N, I, M)
@@ -100,9 +101,15 @@ def run(rep, tier):
         call = sinks[0]
         for k in range(N):
             ki = "%s[%d]" % (inst, k)
+            deps = {a for a in ir.atoms(call.args[1 + k]) if a[0] == 'arg'}
+            if deps != {h.atom(('c', k))}:
+                rep.fail("C04.round", ki, ir.where(call.inst), "backend index component %d depends on coordinate component(s) %s; it may depend on component %d only" % (
+                    k, sorted(a[1] for a in deps), k))
+                continue
             r = classify(call.args[1 + k], F)
             if r[0] == 'unknown':
-                raise AnalysisBroken("C04 %s: unrecognised rounding idiom %s (extend ROUNDERS after reading the code)" % (ki, r[1]))
+                pending.append("C04 %s: unrecognised rounding idiom %s (extend ROUNDERS after reading the code)" % (ki, r[1][:160]))
+                continue
             if r[0] == 'bad':
                 rep.fail("C04.round", ki, ir.where(call.inst), r[1])
                 continue
@@ -123,6 +130,8 @@ def run(rep, tier):
             rep.ok("C04.out", inst)
         else:
             rep.fail("C04.out", inst, FILE, "result is not the queried value's components")
+    if pending and not rep.violations:
+        raise AnalysisBroken(pending[0])
     return hs
 
 
